@@ -38,6 +38,7 @@ type caseDescr struct {
 	Payloads    int      `json:"payloads"`
 	Resolvers   int      `json:"resolver_calls"`
 	Sig         string   `json:"sig,omitempty"`
+	Deadline    bool     `json:"ended_by_deadline,omitempty"`
 }
 
 func workerLimit(name string) int {
@@ -85,7 +86,10 @@ func Run(c *gen.Ctx) error {
 	for _, p := range probes {
 		wl := workerLimit(p.Cfg.Name)
 		var cases []xeng.Case
-		type key struct{ q, cancel, stop int }
+		type key struct {
+			q, cancel, stop int
+			deadline        bool
+		}
 		var keys []key
 		for qi, q := range corpus {
 			n := len(res0[qi].Log)
@@ -96,7 +100,12 @@ func Run(c *gen.Ctx) error {
 			for _, cancel := range points {
 				for _, stop := range []int{0, 1} {
 					cases = append(cases, xeng.Case{ID: len(cases), Query: q, Oracle: xeng.NewOracle(), CancelAfter: cancel, StopAfter: stop, TimeoutMs: 1500, CheckLeaks: true})
-					keys = append(keys, key{qi, cancel, stop})
+					keys = append(keys, key{qi, cancel, stop, false})
+					// the same point with the context ending by deadline (context.DeadlineExceeded) instead of cancel()
+					if cancel != 0 && stop == 0 {
+						cases = append(cases, xeng.Case{ID: len(cases), Query: q, Oracle: xeng.NewOracle(), CancelAfter: cancel, StopAfter: stop, TimeoutMs: 1500, CheckLeaks: true, Deadline: true})
+						keys = append(keys, key{qi, cancel, stop, true})
+					}
 				}
 			}
 		}
@@ -120,7 +129,7 @@ func Run(c *gen.Ctx) error {
 			}
 			cf.Add(fmt.Sprintf("{| cc_limit := %d%%nat; cc_cancel := %s; cc_stop_after := %d%%nat; cc_defer_groups := %d%%nat; cc_hang := %s; cc_leaked := %d%%nat |}",
 				wl, gen.Z(int64(k.cancel)), k.stop, groups, gen.Bool(res.Hang), len(res.Leaked)))
-			descr = append(descr, caseDescr{corpus[k.q], p.Cfg.Name, wl, k.cancel, k.stop, res.Hang, res.Leaked, len(res.Responses), len(res.Log), sig})
+			descr = append(descr, caseDescr{corpus[k.q], p.Cfg.Name, wl, k.cancel, k.stop, res.Hang, res.Leaked, len(res.Responses), len(res.Log), sig, k.deadline})
 			if res.Hang {
 				stats["hang"]++
 			}
@@ -129,7 +138,10 @@ func Run(c *gen.Ctx) error {
 			}
 			if k.cancel != 0 {
 				stats["cancelled_cases"]++
-				distinct[fmt.Sprintf("%s|%d|%d|%d", p.Cfg.Name, k.q, k.cancel, k.stop)] = true
+				distinct[fmt.Sprintf("%s|%d|%d|%d|%v", p.Cfg.Name, k.q, k.cancel, k.stop, k.deadline)] = true
+				if k.deadline {
+					stats["ended_by_deadline"]++
+				}
 			}
 			stats[fmt.Sprintf("wl%d", wl)]++
 		}
@@ -140,7 +152,7 @@ func Run(c *gen.Ctx) error {
 	meta.Evaluations = cf.Len()
 	meta.Programs = len(probes)
 	meta.DistinctNontrivial = len(distinct)
-	meta.Rule = "10 corpus operations (list fan-out, nested lists, abstract lists, 4 with @defer incl. nested and inside lists, a mutation) x cancellation points {never, before dispatch, on entry of the k-th resolver call for k = 1..6 (quick) / all k (thorough)} x consumer {drains every payload, stops after the first as a single-response transport does} x probe servers generated from the current templates with worker_limit {0,1,2,8}; a hang is a response function that has not returned 1.5 s after the request was issued (resolvers return promptly when cancelled); a leak is a goroutine with a generated-code or gqlgen frame still alive up to 100 ms after the request context was cancelled. distinct_nontrivial = distinct (config, operation, cancellation point, consumer) with a cancellation."
+	meta.Rule = "10 corpus operations (list fan-out, nested lists, abstract lists, 4 with @defer incl. nested and inside lists, a mutation) x cancellation points {never, before dispatch, on entry of the k-th resolver call for k = 1..6 (quick) / all k (thorough)} x {cancel(), deadline exceeded} x consumer {drains every payload, stops after the first as a single-response transport does} x probe servers generated from the current templates with worker_limit {0,1,2,8}; a hang is a response function that has not returned 1.5 s after the request was issued (resolvers return promptly when cancelled); a leak is a goroutine with a generated-code or gqlgen frame still alive up to 100 ms after the request context was cancelled. distinct_nontrivial = distinct (config, operation, cancellation point, consumer) with a cancellation."
 	meta.Samples = []any{descr[0], descr[len(descr)/2]}
 	meta.Distribution = map[string]any{"outcomes": stats, "operations": len(corpus), "configurations": len(probes)}
 	return meta.Write(c.OutDir)
